@@ -73,7 +73,14 @@ func NewDriver(repo string) (*Driver, error) {
 	}
 	d := &Driver{Repo: repo, Work: work, GooseBin: filepath.Join(work, "goose.bin")}
 	d.env = append(os.Environ(), "GOFLAGS=-mod=mod", "GOPROXY=off", "GOSUMDB=off", "GOTOOLCHAIN=local")
-	build := exec.Command("go", "build", "-o", d.GooseBin, "./cmd/goose")
+	buildArgs := []string{"build", "-o", d.GooseBin, "./cmd/goose"}
+	if cov := os.Getenv("VERIF_GOOSE_COVER"); cov != "" {
+		// corpus-coverage measurement (tools/corpuscover.sh): statement coverage of the translator
+		buildArgs = []string{"build", "-cover", "-coverpkg=./...", "-o", d.GooseBin, "./cmd/goose"}
+		os.MkdirAll(cov, 0o755)
+		d.env = append(d.env, "GOCOVERDIR="+cov)
+	}
+	build := exec.Command("go", buildArgs...)
 	build.Dir = repo
 	build.Env = d.env
 	if out, err := build.CombinedOutput(); err != nil {
